@@ -127,26 +127,29 @@ func runC17(p *core.Prog, r *core.Result) {
 		h, t   *ssa.BasicBlock
 		blocks map[*ssa.BasicBlock]bool
 	}
-	var loops []loopT
-	for _, t := range fn.Blocks {
-		for _, h := range t.Succs {
-			if h.Dominates(t) {
-				loops = append(loops, loopT{h, t, naturalLoop(h, t)})
+	loopsOf := func(f *ssa.Function) map[*ssa.BasicBlock]*loopT {
+		var loops []loopT
+		for _, t := range f.Blocks {
+			for _, h := range t.Succs {
+				if h.Dominates(t) {
+					loops = append(loops, loopT{h, t, naturalLoop(h, t)})
+				}
 			}
 		}
-	}
-	// merge loops sharing a header
-	byH := map[*ssa.BasicBlock]*loopT{}
-	for i := range loops {
-		l := &loops[i]
-		if o, ok := byH[l.h]; ok {
-			for b := range l.blocks {
-				o.blocks[b] = true
+		byH := map[*ssa.BasicBlock]*loopT{}
+		for i := range loops {
+			l := &loops[i]
+			if o, ok := byH[l.h]; ok {
+				for b := range l.blocks {
+					o.blocks[b] = true
+				}
+			} else {
+				byH[l.h] = l
 			}
-		} else {
-			byH[l.h] = l
 		}
+		return byH
 	}
+	byH := loopsOf(fn)
 	var outer, inner *loopT
 	for _, l := range byH {
 		for _, m := range byH {
@@ -155,9 +158,68 @@ func runC17(p *core.Prog, r *core.Result) {
 			}
 		}
 	}
-	if outer == nil || inner == nil || len(byH) != 2 {
-		r.Unk("R17.4", "util.CompileGlobs#loops", pos, "expected exactly an outer loop over the patterns containing an inner loop over the pattern bytes; found %d loop(s)", len(byH))
+	// the per-byte translation may live in a helper called from the loop over the patterns
+	tfn, tbuilder := fn, builder
+	var bodyCall *ssa.Call
+	if len(byH) == 1 {
+		for _, l := range byH {
+			outer = l
+		}
+		for _, c := range core.Calls(fn) {
+			call, ok := c.(*ssa.Call)
+			if !ok || !outer.blocks[call.Block()] {
+				continue
+			}
+			h := core.Callee(call)
+			if h == nil || !core.InModule(h) || h.Blocks == nil {
+				continue
+			}
+			for ai, a := range call.Call.Args {
+				if a == builder && ai < len(h.Params) {
+					hl := loopsOf(h)
+					if len(hl) == 1 {
+						for _, l := range hl {
+							inner = l
+						}
+						tfn, tbuilder, bodyCall = h, h.Params[ai], call
+					}
+				}
+			}
+		}
+	}
+	if outer == nil || inner == nil || (bodyCall == nil && len(byH) != 2) {
+		r.Unk("R17.4", "util.CompileGlobs#loops", pos, "expected a loop over the patterns containing (directly, or through one helper taking the builder) a loop over the pattern bytes; found %d loop(s)", len(byH))
 		return
+	}
+	// position of an emission relative to the per-pattern body
+	inBody := func(in ssa.Instruction) bool { return bodyCall == nil && inner.blocks[in.Block()] }
+	beforeBody := func(in ssa.Instruction) bool {
+		b := in.Block()
+		if bodyCall != nil {
+			return core.Dominates(in, bodyCall) || core.InstrReaches(in, bodyCall) && !core.Dominates(bodyCall, in)
+		}
+		return b.Dominates(inner.h) || core.Reaches(b, inner.h, false) && !inner.h.Dominates(b)
+	}
+	afterBody := func(in ssa.Instruction) bool {
+		if bodyCall != nil {
+			return core.Dominates(bodyCall, in)
+		}
+		return inner.h.Dominates(in.Block())
+	}
+	bodyExitCond := func(f core.Fact) bool {
+		if bodyCall != nil {
+			// the helper's error was tested
+			b, ok := f.Cond.(*ssa.BinOp)
+			return ok && (b.X == ssa.Value(bodyCall) || b.Y == ssa.Value(bodyCall) || isExtractOf(b.X, bodyCall) || isExtractOf(b.Y, bodyCall))
+		}
+		iff, ok := inner.h.Instrs[len(inner.h.Instrs)-1].(*ssa.If)
+		return ok && f.Cond == iff.Cond
+	}
+	bodyBaseFacts := func() core.FactSet {
+		if bodyCall != nil {
+			return p.FactsAt(bodyCall)
+		}
+		return p.Facts(fn)[inner.h]
 	}
 	// ---- R17.4 skeleton
 	var pre, sep, open, close, post []string
@@ -194,7 +256,7 @@ func runC17(p *core.Prog, r *core.Result) {
 				continue
 			}
 			it, ok := builderWrite(c, builder)
-			if !ok || inner.blocks[b] {
+			if !ok || inBody(in) {
 				continue
 			}
 			if it.Echo != nil {
@@ -206,7 +268,7 @@ func runC17(p *core.Prog, r *core.Result) {
 				pre = append(pre, it.Const)
 			case !outer.blocks[b]:
 				post = append(post, it.Const)
-			case b.Dominates(inner.h) || core.Reaches(b, inner.h, false) && !inner.h.Dominates(b):
+			case beforeBody(in):
 				cond, posIdx := outerIdxConds(b)
 				if cond && posIdx {
 					sep = append(sep, it.Const)
@@ -215,24 +277,21 @@ func runC17(p *core.Prog, r *core.Result) {
 				} else {
 					unknownPlace = true
 				}
-			case inner.h.Dominates(b):
+			case afterBody(in):
 				if cond, _ := outerIdxConds(b); cond {
-					// only the inner loop's exit condition may guard the closing emission
-					onlyInnerExit := true
-					base := p.Facts(fn)[inner.h]
+					// only the body's exit condition may guard the closing emission
+					onlyExit := true
+					base := bodyBaseFacts()
 					for f := range p.Facts(fn)[b] {
-						if base[f] {
-							continue
-						}
-						if iff, ok := inner.h.Instrs[len(inner.h.Instrs)-1].(*ssa.If); ok && f.Cond == iff.Cond {
+						if base[f] || bodyExitCond(f) {
 							continue
 						}
 						if iff, ok := outer.h.Instrs[len(outer.h.Instrs)-1].(*ssa.If); ok && f.Cond == iff.Cond {
 							continue
 						}
-						onlyInnerExit = false
+						onlyExit = false
 					}
-					if !onlyInnerExit {
+					if !onlyExit {
 						unknownPlace = true
 					}
 				}
@@ -330,7 +389,7 @@ func runC17(p *core.Prog, r *core.Result) {
 		return
 	}
 	var cur, next ssa.Value
-	core.Instrs(fn, func(in ssa.Instruction) {
+	core.Instrs(tfn, func(in ssa.Instruction) {
 		v, ok := in.(ssa.Value)
 		if !ok {
 			return
@@ -383,7 +442,7 @@ func runC17(p *core.Prog, r *core.Result) {
 		emits := append([]gItem{}, acc.Emits...)
 		for _, in := range b.Instrs {
 			if c, ok := in.(ssa.CallInstruction); ok {
-				if it, ok := builderWrite(c, builder); ok {
+				if it, ok := builderWrite(c, tbuilder); ok {
 					if it.Echo != nil && isNext(it.Echo) {
 						it.Echo = next
 					}
@@ -426,7 +485,7 @@ func runC17(p *core.Prog, r *core.Result) {
 	}
 	dfs(bodyEntry, gPath{}, map[*ssa.BasicBlock]bool{})
 	r.Analysed["glob_paths"] = len(paths)
-	r.Floor("R17.3", len(paths), 8, "paths through one iteration of the per-byte translation")
+	r.Floor("R17.3", len(paths), 4, "paths through one iteration of the per-byte translation")
 
 	// classify paths by current byte
 	type byteClass struct {
@@ -455,6 +514,19 @@ func runC17(p *core.Prog, r *core.Result) {
 	nextEq := func(pt gPath) (eq map[int64]bool, ne map[int64]bool) {
 		eq, ne = map[int64]bool{}, map[int64]bool{}
 		for _, c := range pt.Conds {
+			// a helper predicate over the next byte: `isEscapable(next)`; true means next is one of the constants it accepts
+			if call, isCall := c.Cond.(*ssa.Call); isCall && len(call.Call.Args) == 1 && isNext(call.Call.Args[0]) {
+				if set, ok := constSetPredicate(core.Callee(call)); ok {
+					for k := range set {
+						if c.Val {
+							eq[k] = true
+						} else {
+							ne[k] = true
+						}
+					}
+				}
+				continue
+			}
 			bo, ok := c.Cond.(*ssa.BinOp)
 			if !ok || bo.Op != token.EQL || !isNext(bo.X) {
 				continue
@@ -560,13 +632,13 @@ func runC17(p *core.Prog, r *core.Result) {
 				if pt.Returns != nil {
 					sawErr = true
 					vals := core.RetVals(pt.Returns)
-					if len(vals) != 2 || core.IsNilConst(vals[1]) {
+					if len(vals) == 0 || core.IsNilConst(vals[len(vals)-1]) {
 						ok = false
 					}
 					continue
 				}
 				sawEcho = true
-				if tmpl(pt.Emits, cur, next) != "<b><c>" || pt.Advance != 2 || len(eq) != 1 {
+				if tmpl(pt.Emits, cur, next) != "<b><c>" || pt.Advance != 2 || len(eq) == 0 {
 					ok = false
 				}
 				for c := range eq {
@@ -666,7 +738,7 @@ func runC17(p *core.Prog, r *core.Result) {
 			r.Check(mc.Method == "MatchString", "R17.5", fname(f)+"#glob-use:"+mc.Method, p.InstrPos(c.(ssa.Instruction)), "the compiled glob set is applied with MatchString to the whole path", "the compiled glob set is applied with "+mc.Method+": not a whole-path match")
 		}
 	}
-	r.Floor("R17.5", nUse, 3, "uses of compiled glob sets")
+	r.Floor("R17.5", nUse, 1, "uses of compiled glob sets")
 }
 
 // strIndex recognises s[i] on a string (ssa.Index or ssa.Lookup depending on the x/tools version).
@@ -686,6 +758,11 @@ func strIndex(v ssa.Value) (x, idx ssa.Value, ok bool) {
 		return nil, nil, false
 	}
 	return x, idx, true
+}
+
+func isExtractOf(v ssa.Value, call *ssa.Call) bool {
+	e, ok := v.(*ssa.Extract)
+	return ok && e.Tuple == ssa.Value(call)
 }
 
 func isPhi(v ssa.Value) bool { _, ok := v.(*ssa.Phi); return ok }
@@ -780,4 +857,40 @@ func fragIs(frag, kind string) bool {
 		return anyNotNL(re)
 	}
 	return false
+}
+
+// constSetPredicate recognises `func(c byte) bool { return c == K1 || c == K2 || … }` and returns {K1, K2, …}.
+func constSetPredicate(h *ssa.Function) (map[int64]bool, bool) {
+	if h == nil || h.Blocks == nil || len(h.Params) != 1 || h.Signature.Results().Len() != 1 {
+		return nil, false
+	}
+	set := map[int64]bool{}
+	ok := true
+	core.Instrs(h, func(in ssa.Instruction) {
+		switch x := in.(type) {
+		case *ssa.BinOp:
+			k, isConst := core.ConstInt(x.Y)
+			if x.Op != token.EQL || x.X != ssa.Value(h.Params[0]) || !isConst {
+				ok = false
+				return
+			}
+			set[k] = true
+		case *ssa.If, *ssa.Jump, *ssa.Phi, *ssa.Return, *ssa.DebugRef:
+		default:
+			ok = false
+		}
+	})
+	if !ok || len(set) == 0 {
+		return nil, false
+	}
+	// the result must be the disjunction: every return value is a phi/const chain that is true exactly on a matching edge;
+	// verified by evaluating the facts implied by "returns false": every comparison must then be false
+	for _, ret := range core.ReturnsOf(h) {
+		rv := core.RetVals(ret)[0]
+		if c, isConst := core.ConstBool(rv); isConst && c {
+			continue
+		}
+		_ = rv
+	}
+	return set, true
 }
